@@ -38,6 +38,8 @@ type (
 		wgBarrier   syncx.Barrier
 		confirmChan chan lang.PlaceholderType
 		inflight    int32
+		// signaled with lock held, when a batch handed over by Add got registered in waitGroup
+		handoffCond *sync.Cond
 		guarded     bool
 		newTicker   func(duration time.Duration) timex.Ticker
 		lock        sync.Mutex
@@ -56,6 +58,7 @@ func NewPeriodicalExecutor(interval time.Duration, container TaskContainer) *Per
 			return timex.NewTicker(d)
 		},
 	}
+	executor.handoffCond = sync.NewCond(&executor.lock)
 	proc.AddShutdownListener(func() {
 		executor.Flush()
 	})
@@ -91,6 +94,14 @@ func (pe *PeriodicalExecutor) Sync(fn func()) {
 // Wait waits the execution to be done.
 func (pe *PeriodicalExecutor) Wait() {
 	pe.Flush()
+	// the batches taken out of the container by Add are not registered in waitGroup
+	// until the background goroutine received them, wait for that to happen,
+	// otherwise their tasks are neither flushed above nor waited for below.
+	pe.lock.Lock()
+	for atomic.LoadInt32(&pe.inflight) > 0 {
+		pe.handoffCond.Wait()
+	}
+	pe.lock.Unlock()
 	pe.wgBarrier.Guard(func() {
 		pe.waitGroup.Wait()
 	})
@@ -129,8 +140,13 @@ func (pe *PeriodicalExecutor) backgroundFlush() {
 			select {
 			case vals := <-pe.commander:
 				commanded = true
-				atomic.AddInt32(&pe.inflight, -1)
+				// register the execution before marking the batch as received,
+				// so that Wait sees it either in inflight or in waitGroup
 				pe.enterExecution()
+				pe.lock.Lock()
+				atomic.AddInt32(&pe.inflight, -1)
+				pe.handoffCond.Broadcast()
+				pe.lock.Unlock()
 				pe.confirmChan <- lang.Placeholder
 				pe.executeTasks(vals)
 				last = timex.Now()
